@@ -126,3 +126,39 @@ Proof.
       * destruct j as [|j]; [lia|]. simpl in Hi, Hj.
         eapply IH with (i := i) (j := j); eauto. lia.
 Qed.
+
+(* distinct invents nothing: every result row is one of the stacked rows *)
+Theorem union_distinct_subset_proof seen vis rs r :
+  In r (dedup_rows seen vis rs) -> In r rs.
+Proof.
+  revert seen. induction rs as [|x rs IH]; intros seen H; [destruct H|].
+  simpl in H. destruct (existsb (values_eqb (vis x)) seen) eqn:E.
+  - right. eapply IH. exact H.
+  - destruct H as [<-|H]; [left; reflexivity|right; eapply IH; exact H].
+Qed.
+
+(* distinct loses nothing: every stacked row whose visible values equal themselves (no NaN / error cell)
+   is represented - by an already seen value list or by a result row with equal visible values *)
+Theorem union_distinct_complete_proof seen vis rs r :
+  In r rs -> values_eqb (vis r) (vis r) = true ->
+  existsb (values_eqb (vis r)) seen = true
+  \/ exists r', In r' (dedup_rows seen vis rs) /\ values_eqb (vis r) (vis r') = true.
+Proof.
+  revert seen. induction rs as [|x rs IH]; intros seen H R; [destruct H|].
+  simpl. destruct (existsb (values_eqb (vis x)) seen) eqn:E.
+  - destruct H as [->|H]; [left; exact E|]. apply IH; assumption.
+  - destruct H as [->|H].
+    + right. exists r. split; [left; reflexivity|exact R].
+    + destruct (IH (vis x :: seen) H R) as [S|[r' [I V]]].
+      * simpl in S. apply orb_true_iff in S. destruct S as [S|S].
+        -- right. exists x. split; [left; reflexivity|exact S].
+        -- left. exact S.
+      * right. exists r'. split; [right; exact I|exact V].
+Qed.
+
+Corollary union_distinct_complete_nil_proof vis rs r :
+  In r rs -> values_eqb (vis r) (vis r) = true ->
+  exists r', In r' (dedup_rows [] vis rs) /\ values_eqb (vis r) (vis r') = true.
+Proof.
+  intros H R. destruct (union_distinct_complete_proof [] vis rs r H R) as [S|S]; [discriminate S|exact S].
+Qed.
